@@ -2776,3 +2776,47 @@ def node_local(r: R, chk, entries: List[str], rule="NODE-LOCAL", floor: int = 1)
                    func=q, construct=f"forward-only cursor {cur[0][0]}" if cur else "")
     chk.floor(rule, "loops over the caller's nodes on the evaluation path", n, floor)
     return n
+
+
+# ---------------------------------------------------------------------------------------------------------
+# CUTS-DISTINCT: pieces are made between consecutive *distinct* cut points
+def _consecutive_pairs(it):
+    """X when `it` is zip(X[:-1], X[1:]) / pairwise(X) / zip(X, X[1:])"""
+    if not (isinstance(it, ast.Call) and it.args):
+        return None
+    fn = seg(it.func).split(".")[-1]
+    if fn == "pairwise" and len(it.args) == 1:
+        return it.args[0]
+    if fn == "zip" and len(it.args) == 2:
+        a, b = it.args
+        if isinstance(b, ast.Subscript) and isinstance(b.slice, ast.Slice) and isinstance(b.slice.lower, ast.Constant) and b.slice.lower.value == 1 and b.slice.upper is None:
+            base = a.value if isinstance(a, ast.Subscript) and isinstance(a.slice, ast.Slice) else a
+            if seg(base) == seg(b.value):
+                return b.value
+    return None
+
+
+def cuts_distinct(r: R, chk, quals: List[str], rule="CUTS-DISTINCT", floor: int = 1):
+    n = 0
+    for q in quals:
+        fi = r.prog.func(q)
+        conts, elems, is_dd = dedup_taint(fi)
+        for lp in ast.walk(fi.node):
+            gens = [(lp.iter, lp.target, lp.body)] if isinstance(lp, ast.For) else [(g.iter, g.target, None) for g in lp.generators] if isinstance(lp, (ast.ListComp, ast.GeneratorExp, ast.SetComp)) else []
+            for it, tgt, body in gens:
+                x = _consecutive_pairs(it)
+                if x is None or not (isinstance(tgt, ast.Tuple) and len(tgt.elts) == 2 and all(isinstance(e, ast.Name) for e in tgt.elts)):
+                    continue
+                n += 1
+                a, b = (e.id for e in tgt.elts)
+                guarded = False
+                if body:
+                    first = body[0]
+                    if isinstance(first, ast.If) and isinstance(first.test, ast.Compare) and {a, b} <= {y.id for y in ast.walk(first.test) if isinstance(y, ast.Name)} and any(isinstance(s, ast.Continue) for s in first.body):
+                        guarded = True
+                ok = is_dd(x) or guarded
+                chk.ob(rule, f"{q}: the consecutive cut points `{seg(it, 40)}` are distinct", ok, loc=f"{fi.module}.py:{lp.lineno}",
+                       detail="" if ok else f"{q}: pieces are made between consecutive members of `{seg(x, 30)}`, which is not de-duplicated (no set / unique / `.knots` on its way, no `{a} == {b}` skip in the loop): a node given twice yields an empty piece [{a}, {a}] — an invalid knot vector — where repeated nodes are to be ignored",
+                       func=q, construct=f"cut points not de-duplicated: {seg(x, 30)}")
+    chk.floor(rule, "loops over consecutive cut points", n, floor)
+    return n
